@@ -349,3 +349,103 @@ pub fn udp(args: &[String]) -> anyhow::Result<()> {
     }
     Ok(())
 }
+
+/// A VMess stream longer than its 16-bit chunk counter has values (real client encoder, `chunks` one-byte writes), then
+/// chunk-level edits NEAR ITS END - two neighbouring chunks swapped, one duplicated, one dropped - through the real server
+/// decoder: nothing past the untampered prefix may be released, and the decoder must refuse.
+pub fn long_stream(args: &[String]) -> anyhow::Result<()> {
+    use octo_squirrel_client::client::verif as cv;
+    use octo_squirrel_server::server::verif as sv;
+    use tokio_util::codec::Encoder;
+    crate::util::quiet_panics();
+    let o = crate::util::opts(args);
+    let chunks = crate::util::opt_u64(&o, "chunks", 65800) as usize;
+    for cipher in crate::c04::VMESS {
+        let addr = crate::stream::test_addr(0);
+        let mut client = cv::tcp_codec(&crate::sut::vmess_client_cfg(cipher, crate::sut::UUID_A), &addr.to_octo())?;
+        let mut wire = BytesMut::new();
+        let mut ends = Vec::with_capacity(chunks);
+        for i in 0..chunks {
+            client.encode(BytesMut::from(&[(i % 251) as u8][..]), &mut wire)?;
+            ends.push(wire.len());
+        }
+        let start = |i: usize| if i == 0 { 0 } else { ends[i - 1] };
+        // every chunk here is: sealed length (18 bytes) | sealed payload (1 + 16 bytes) | random padding; "swap-payload" and
+        // "dup-payload" edit the sealed payloads only and leave lengths and padding where they are
+        for (op, at) in [("swap", chunks - 40), ("dup", chunks - 30), ("drop", chunks - 20), ("swap", 65530), ("swap", 65540), ("dup", 65550),
+                         ("swap-payload", chunks - 50), ("dup-payload", chunks - 45), ("swap-payload", 65534), ("swap-payload", 65545), ("swap-payload", 100)] {
+            if at + 2 >= chunks {
+                continue;
+            }
+            let a = &wire[start(at)..ends[at]];
+            let b = &wire[start(at + 1)..ends[at + 1]];
+            let mut t = wire[..start(at)].to_vec();
+            match op {
+                "swap-payload" | "dup-payload" => {
+                    let mut a2 = a.to_vec();
+                    let mut b2 = b.to_vec();
+                    if a2.len() >= 35 && b2.len() >= 35 {
+                        let pa = a[18..35].to_vec();
+                        let pb = b[18..35].to_vec();
+                        b2[18..35].copy_from_slice(&pa);
+                        if op == "swap-payload" {
+                            a2[18..35].copy_from_slice(&pb);
+                        }
+                    }
+                    t.extend_from_slice(&a2);
+                    t.extend_from_slice(&b2);
+                }
+                "swap" => {
+                    t.extend_from_slice(b);
+                    t.extend_from_slice(a);
+                }
+                "dup" => {
+                    t.extend_from_slice(a);
+                    t.extend_from_slice(a);
+                    t.extend_from_slice(b);
+                }
+                _ => t.extend_from_slice(b),
+            }
+            t.extend_from_slice(&wire[ends[at + 1]..]);
+            let listener = sv::listener(&crate::sut::vmess_server_cfg(&[crate::sut::UUID_A]))?;
+            let mut server = listener.new_codec()?;
+            // delivered in reads of 50 000 bytes, as a socket would
+            let mut buf = BytesMut::new();
+            let mut released = 0usize;
+            let mut wrong = false;
+            let mut refused = false;
+            'feed: for piece in t.chunks(50_000) {
+                buf.extend_from_slice(piece);
+                loop {
+                    match crate::sut::server_decode(&mut server, &mut buf) {
+                        crate::sut::Got::Connect(b, _) | crate::sut::Got::Tcp(b) => {
+                            for x in b {
+                                if x != (released % 251) as u8 {
+                                    wrong = true;
+                                }
+                                released += 1;
+                            }
+                        }
+                        crate::sut::Got::None => break,
+                        _ => {
+                            refused = true;
+                            break 'feed;
+                        }
+                    }
+                }
+            }
+            let mut why = Vec::new();
+            if released > at {
+                why.push(format!("{released} payload bytes released but only {at} lie before the edited chunk"));
+            }
+            if wrong {
+                why.push("released bytes are not the sender's, in order".to_owned());
+            }
+            if !refused {
+                why.push("the edited stream was not refused".to_owned());
+            }
+            println!("{}", json!({"proto": format!("vmess-req:{cipher}"), "op": op, "chunk": at + 1, "of": chunks, "released": released, "ok": why.is_empty(), "why": why}));
+        }
+    }
+    Ok(())
+}
